@@ -67,6 +67,9 @@ func c18Eval(c *Ctx, cs *c18Case, o c18Out) {
 	canon := c18Canon(cs)
 	reached := cs.Marker != "" && strings.Contains(strings.ToLower(string(o.out)), strings.ToLower(cs.Marker)) // units are lower-cased by the formatter
 	c.Res.Hit("kind/" + cs.Kind)
+	if cs.Look > 0 {
+		c.Res.Hit(fmt.Sprintf("lookalike-%d%%/%s", cs.Look, cs.Kind))
+	}
 	if cs.Known {
 		c.Res.Hit("stream/known-findings/" + cs.Kind)
 	}
@@ -247,7 +250,7 @@ func c18EvalHTML(c *Ctx, cs *c18Case) {
 }
 
 func runC18(c *Ctx) {
-	c.Res.Rule = "profiles (and graphs handed to graph.ComposeDot) with DOT/callgrind/HTML metacharacters (\" \\ newline < > & { } [ ] | ; ( ) non-ASCII, non-UTF-8, escape look-alikes, strings ending in a backslash) in one chosen string position or in all of them (function, system name, file, mapping file, build id, comment, label key/value, numeric label key/unit, sample type/unit; graph title, legend line, tag, numeric tag, value unit) × call_tree × granularity × nodecount; the real output of pprof -dot/-callgrind (one process each), report.Generate, graph.ComposeDot and the web UI pages is checked by the Lean DOT parser / callgrind checker (pvdrv-C18). Non-trivial = the marker embedded in the hot string reached the output (DOT, HTML) or the callgrind output has calls= entries."
+	c.Res.Rule = "half of the cases additionally draw 15% / 60% of ALL their strings from a small pool of short format look-alikes (callgrind `(9)` `+3` `*` `fn=x` `calls=1 2`, DOT `N1` `]` `\\l`, HTML `</script>` `{{.}}`), repeated across nodes; profiles (and graphs handed to graph.ComposeDot) with DOT/callgrind/HTML metacharacters (\" \\ newline < > & { } [ ] | ; ( ) non-ASCII, non-UTF-8, escape look-alikes, strings ending in a backslash) in one chosen string position or in all of them (function, system name, file, mapping file, build id, comment, label key/value, numeric label key/unit, sample type/unit; graph title, legend line, tag, numeric tag, value unit) × call_tree × granularity × nodecount; the real output of pprof -dot/-callgrind (one process each), report.Generate, graph.ComposeDot and the web UI pages is checked by the Lean DOT parser / callgrind checker (pvdrv-C18). Non-trivial = the marker embedded in the hot string reached the output (DOT, HTML) or the callgrind output has calls= entries."
 	tmp, err := os.MkdirTemp("", "c18-")
 	if err != nil {
 		c.Res.HarnessError = err.Error()
@@ -296,6 +299,7 @@ func runC18(c *Ctx) {
 			cs.Kind = "callgrind-cli"
 		}
 		rr := r.Fork()
+		cs.Look = c18SetLook(rr)
 		cs.Prof = c18GenProf(rr, hot, cs.Marker, true, false)
 		cs.Opts = c18GenOpts(rr, cs.Prof, hot)
 		if cs.Kind == "dot-cli" && rr.Chance(25) && len(cs.Prof.Samples) > 0 && len(cs.Prof.Samples[0].Labels) > 0 {
@@ -331,7 +335,9 @@ func runC18(c *Ctx) {
 		n++
 		hot := c18GraphPositions[i%len(c18GraphPositions)]
 		cs := &c18Case{Kind: "compose", Hot: hot, Marker: marker(n)}
-		cs.Compose = c18GenGraph(r.Fork(), hot, cs.Marker)
+		rr := r.Fork()
+		cs.Look = c18SetLook(rr)
+		cs.Compose = c18GenGraph(rr, hot, cs.Marker)
 		c18Eval(c, cs, c18Exec(c, tmp, 0, cs))
 	}
 	// --- stream 3: escapeForDot against its model ---
@@ -366,6 +372,7 @@ func runC18(c *Ctx) {
 		}
 		rr := r.Fork()
 		known := cs.Kind == "callgrind-report" && i%4 == 3
+		cs.Look = c18SetLook(rr)
 		cs.Prof = c18GenProf(rr, hot, cs.Marker, cs.Kind == "dot-report", cs.Kind == "callgrind-report" && !known)
 		cs.Opts = c18GenOpts(rr, cs.Prof, hot)
 		if cs.Kind == "callgrind-report" {
@@ -385,7 +392,9 @@ func runC18(c *Ctx) {
 		n++
 		hot := c18Positions[i%len(c18Positions)]
 		cs := &c18Case{Kind: "html", Hot: hot, Marker: marker(n)}
-		cs.Prof = c18GenHTMLProf(r.Fork(), hot, cs.Marker)
+		rr := r.Fork()
+		cs.Look = c18SetLook(rr)
+		cs.Prof = c18GenHTMLProf(rr, hot, cs.Marker)
 		c18EvalHTML(c, cs)
 	}
 	os.Stderr, os.Stdout = savedStderr, savedStdout
